@@ -86,10 +86,22 @@ def gen_cases(rng, tier, scale):
         if '#each' not in src or '[this]' in src:
             continue
         cases.append(rcase(f's{k}', src, data, entry=4, ast=ast, kind='each', prov='struct', coll=None, tags=['struct']))
+    # nested blocks re-declaring the SAME block-parameter name: the innermost binding wins, and the outer one is back
+    # after the inner block
+    D3 = {'groups': [{'n': 'g0', 'items': ['a', 'b']}, {'n': 'g1', 'items': ['c']}], 'o': {'k': 'K'}}
+    for k5, (tpl, exp) in enumerate([
+            ('{{#each groups as |it|}}{{it.n}}[{{#each it.items as |it|}}{{it}};{{/each}}]{{it.n}} {{/each}}', 'g0[a;b;]g0 g1[c;]g1 '),
+            ('{{#each groups as |row i|}}{{#each row.items as |cell i|}}{{i}}{{cell}}{{/each}}|{{i}} {{/each}}', '0a1b|0 0c|1 '),
+            ('{{#each groups as |e|}}{{#with @root.o as |e|}}{{e.k}}{{/with}}{{e.n}};{{/each}}', 'Kg0;Kg1;'),
+            ('{{#each groups as |v k|}}{{#each v.items as |k v|}}{{k}}={{v}},{{/each}}{{k}};{{/each}}', 'a=0,b=1,0;c=0,1;'),
+            ('{{#with o as |x|}}{{#each @root.groups as |x|}}{{x.n}}{{/each}}{{x.k}}{{/with}}', 'g0g1K')]):
+        cases.append(rcase(f'sh{k5}', tpl, D3, entry=4, kind='fixedout', exp=exp, tags=['shadowed-block-param']))
     return cases
 
 def oracle(c, io, mo):
     r = res_of(io)
+    if c.get('kind') == 'fixedout':
+        return None if r.get('out') == c['exp'] else f'expected {c["exp"]!r}, got {r.get("out", r.get("reason"))!r}'
     try:
         exp = Ref(c['data']).render(c['ast'])
     except ValueError:
@@ -101,7 +113,7 @@ def oracle(c, io, mo):
     return None if r['out'] == exp else f'expected {exp!r}, got {r["out"]!r}'
 
 def nontrivial(c, mo, io):
-    return res_of(io)['kind'] == 'ok' and (c['coll'] is None or len(c['coll']) != 1)
+    return res_of(io)['kind'] == 'ok' and (c.get('coll') is None or len(c['coll']) != 1)
 
 def relevant_difference(c, mo, io):
     return res_of(mo).get('out') != res_of(io).get('out') or res_of(mo)['kind'] != res_of(io)['kind']
